@@ -619,3 +619,77 @@ func TestC04_Random(t *testing.T) {
 		judge(rt, "c04", c, checkC04)
 	})
 }
+
+// ---------------------------------------------------------------------------
+// sibling layers of one decoded message: every COSE_Signature has its own
+// protected header, also when several of them are byte-identical on the wire.
+// The algorithm consulted for one layer is the one in that layer's bytes,
+// whatever the caller did to the typed header of a sibling.
+
+type c04SiblingCase struct {
+	AlgA int64 `json:"alg_a"` // on the wire, in every signer's protected header
+	AlgB int64 `json:"alg_b"` // written into signer 0's typed header after decoding
+	N    int   `json:"n"`
+}
+
+func checkC04Siblings(c c04SiblingCase) error {
+	prot := protBstr(rc.Map(rc.E(rc.Int(1), rc.Int(c.AlgA))))
+	w := []byte{0xd8, 0x62, 0x84, 0x40, 0xa0, 0x47}
+	w = append(w, "payload"...)
+	w = append(w, byte(0x80+c.N))
+	for i := 0; i < c.N; i++ {
+		w = append(w, 0x83)
+		w = append(w, prot...)
+		w = append(w, 0xa0, 0x43, 1, 2, byte(i))
+	}
+	var m cose.SignMessage
+	if err := m.UnmarshalCBOR(append([]byte{}, w...)); err != nil {
+		return fmt.Errorf("harness: %v", err)
+	}
+	before := bridge.DumpValue(m.Signatures[c.N-1])
+	// the caller re-issues signer 0 under another algorithm: typed header edited in place, raw bytes dropped
+	m.Signatures[0].Headers.Protected[int64(1)] = cose.Algorithm(c.AlgB)
+	m.Signatures[0].Headers.RawProtected = nil
+	if after := bridge.DumpValue(m.Signatures[c.N-1]); after != before {
+		return finding("sibling-layers-share-header", "editing the typed protected header of signer 0 changed signer %d of the same decoded message\nbefore=%s\n after=%s", c.N-1, before, after)
+	}
+	body, _ := m.Headers.MarshalProtected()
+	for i := 1; i < c.N; i++ {
+		vA := &bridge.SpyVerifier{Alg: cose.Algorithm(c.AlgA)}
+		if err := m.Signatures[i].Verify(vA, body, m.Payload, nil); err != nil || vA.NCalls() != 1 {
+			return finding("refused-though-allowed/sibling-edited", "signer %d (alg %d on the wire) is refused for a verifier of that algorithm after signer 0 was edited: %v", i, c.AlgA, err)
+		}
+		if a, ok := tbsProtectedAlg(vA.Calls[0].Content, 2); !ok || a != c.AlgA {
+			return finding("verified-bytes-carry-other-alg", "signer %d: bytes handed to the verifier do not carry alg %d", i, c.AlgA)
+		}
+		vB := &bridge.SpyVerifier{Alg: cose.Algorithm(c.AlgB)}
+		if err := m.Signatures[i].Verify(vB, body, m.Payload, nil); err == nil || vB.NCalls() != 0 {
+			return finding("proceeds-under-other-alg/sibling-edited", "signer %d (alg %d in its signed bytes) is verified by a verifier of algorithm %d after that algorithm was written into signer 0's header (key invoked %d times, err=%v)", i, c.AlgA, c.AlgB, vB.NCalls(), err)
+		}
+	}
+	stats.Class("sibling-signatures")
+	return nil
+}
+
+func init() { register("c04sib", checkC04Siblings) }
+
+func TestC04_SiblingSignatures(t *testing.T) {
+	begin(t, "C04", "siblings")
+	algs := []int64{-7, -8, -35, -36, -37, -38, -39, -65537}
+	n := 0
+	for _, a := range algs {
+		for _, b := range algs {
+			if a == b {
+				continue
+			}
+			for _, k := range []int{2, 3, 4} {
+				c := c04SiblingCase{AlgA: a, AlgB: b, N: k}
+				n++
+				stats.Eval()
+				stats.NTBytes([]byte(fmt.Sprint(c)))
+				judge(t, "c04sib", c, checkC04Siblings)
+			}
+		}
+	}
+	stats.ExhaustivePart("sibling-signature cells", n)
+}
